@@ -7,7 +7,9 @@ The decoder is type-directed like zeebo/bencode's reflection decoder for `tor.BI
 (strings into string/[]byte fields, `i…e` into int64 / uint32 fields with
 strconv.ParseInt / ParseUint's syntax and ranges and SetUint's truncation, lists of
 strings into path.Path, unknown keys skipped after validation, the last of duplicate
-keys wins, an empty list leaves the slice nil, trailing bytes ignored), but it is
+scalar keys wins while a duplicate LIST key is decoded into the existing slice element by
+element (`mergeList`, and for `files` field by field), an empty list leaves the slice as
+it is, trailing bytes ignored), but it is
 ITERATIVE: every loop is indexed by fuel bounded by the input length, so it is total on
 every byte string and nesting depth costs nothing.  (The Go decoder recurses once per
 nesting level: the recorded stack-overflow finding is exactly "nesting depth beyond what
@@ -97,13 +99,19 @@ def strListBody : Nat → Bytes → List Bytes → Option (List Bytes × Bytes)
       | some (s, r) => strListBody fuel r (s :: acc)
       | none => none
 
-/-- path.Path: nil for an empty list, as zeebo leaves it -/
-def pathVal (fuel : Nat) (bs : Bytes) : Option (Option (List Bytes) × Bytes) :=
+/-- zeebo's decodeList into an EXISTING slice (a key that occurs twice): element i of the new
+    list overwrites element i, the length only grows — the old tail survives -/
+def mergeList {α : Type} (old new : List α) : List α := new ++ old.drop new.length
+
+/-- path.Path decoded into the field's current value: an empty list leaves it as it is
+    (nil stays nil), otherwise the new elements overwrite the old ones position by position -/
+def pathVal (fuel : Nat) (bs : Bytes) (old : Option (List Bytes)) :
+    Option (Option (List Bytes) × Bytes) :=
   match bs with
   | 108 :: r =>
     match strListBody fuel r [] with
-    | some ([], r') => some (none, r')
-    | some (l, r') => some (some l, r')
+    | some ([], r') => some (old, r')
+    | some (l, r') => some (some (mergeList (old.getD []) l), r')
     | none => none
   | _ => none
 
@@ -134,11 +142,11 @@ def fileBody : Nat → Bytes → BFile → Option (BFile × Bytes)
       | none => none
       | some (k, r) =>
         if k = kPath then
-          match pathVal fuel r with
+          match pathVal fuel r f.path with
           | some (p, r') => fileBody fuel r' { f with path := p }
           | none => none
         else if k = kPath8 then
-          match pathVal fuel r with
+          match pathVal fuel r f.path8 with
           | some (p, r') => fileBody fuel r' { f with path8 := p }
           | none => none
         else if k = kLength then
@@ -154,15 +162,20 @@ def fileBody : Nat → Bytes → BFile → Option (BFile × Bytes)
           | some r' => fileBody fuel r' f
           | none => none
 
-/-- the elements of `files`, after the `l` -/
-def filesBody : Nat → Bytes → List BFile → Option (List BFile × Bytes)
-  | 0, _, _ => none
-  | fuel+1, bs, acc =>
+/-- the elements of `files`, after the `l`, decoded into the field's current value `old`:
+    element i is decoded INTO old[i] when it exists (fields absent from the new dictionary
+    keep their old values), and the old tail survives -/
+def filesBody : Nat → Bytes → List BFile → List BFile → Option (List BFile × Bytes)
+  | 0, _, _, _ => none
+  | fuel+1, bs, acc, old =>
     match bs with
-    | 101 :: r => some (acc.reverse, r)
+    | 101 :: r => some (acc.reverse ++ old, r)
     | 100 :: r =>
-      match fileBody fuel r { path := none, path8 := none, length := 0, attr := [] } with
-      | some (f, r') => filesBody fuel r' (f :: acc)
+      let start : BFile := match old with
+        | f :: _ => f
+        | [] => { path := none, path8 := none, length := 0, attr := [] }
+      match fileBody fuel r start with
+      | some (f, r') => filesBody fuel r' (f :: acc) old.tail
       | none => none
     | _ => none
 
@@ -202,8 +215,8 @@ def infoBody : Nat → Bytes → BInfo → Option BInfo
         else if k = kFiles then
           match r with
           | 108 :: r1 =>
-            match filesBody fuel r1 [] with
-            | some ([], r') => infoBody fuel r' bi              -- `le`: the slice stays as it is
+            match filesBody fuel r1 [] (bi.files.getD []) with
+            | some ([], r') => infoBody fuel r' bi              -- `le` into nil: stays nil
             | some (fs, r') => infoBody fuel r' { bi with files := some fs }
             | none => none
           | _ => none
